@@ -96,6 +96,19 @@ def make_cases(ctx):
     n_gen = 150 if ctx.quick() else 3000
     for i in range(n_gen):
         texts.append((f"gen:{i}", gen.random_program(ctx.rng)))
+    # every statement kind in isolation, next to one rule: a predicate that occurs ONLY in the body of a #show term,
+    # an #external, a head aggregate's condition, ... must be seen (a two-statement program makes that likely)
+    for i in range(260 if ctx.quick() else 5000):
+        r = ctx.rng.random()
+        if r < 0.45:
+            first = gen.other_stm(ctx.rng)
+        elif r < 0.6:
+            first = f"#show {gen.term(ctx.rng, 1)} : {', '.join(gen.body_lit(ctx.rng) for _ in range(ctx.rng.choice([1, 2, 3])))}."
+        elif r < 0.75:
+            first = gen.objective(ctx.rng)
+        else:
+            first = gen.rule(ctx.rng)
+        texts.append((f"stmt:{i}", first + "\n" + gen.rule(ctx.rng)))
     n_mut = 150 if ctx.quick() else 3000
     for i in range(n_mut):
         _, base = ctx.rng.choice(harvested) if ctx.rng.random() < 0.6 else ("", gen.random_program(ctx.rng))
